@@ -55,7 +55,8 @@ def reference(cfg, xs, obs):
     if test == "kaplan_wald":
         return [M.kaplan_wald(t, s1.fr(kw.get("g", "0")), xs)]
     if test == "wald_sprt":
-        eta = s1.fr(kw["eta"]) if "eta" in kw else F(float(u) * (1 - np.finfo(float).eps))
+        # no eta given: the constructor's documented default initial alternative, t + (u - t)/2
+        eta = s1.fr(kw["eta"]) if "eta" in kw else t + (u - t) / 2
         return [M.sprt(N, t, u, xs, eta, clip=False), M.sprt(N, t, u, xs, eta, clip=True)]
     raise ValueError(test)
 
